@@ -61,6 +61,10 @@ func valueOp(f *fg.File, e ast.Expr, v string, float bool, autoName string) (op,
 			return op{}, fmt.Errorf("expected int64(<expr>), got %s", f.Text(e))
 		}
 		e = c.Args[0]
+		// the float arms may round instead of truncating: int64(math.Round(<expr>))
+		if rc, ok := e.(*ast.CallExpr); ok && f.Text(rc.Fun) == "math.Round" && len(rc.Args) == 1 {
+			e = rc.Args[0]
+		}
 	}
 	switch x := e.(type) {
 	case *ast.Ident:
@@ -221,6 +225,11 @@ var errCond = []string{"err != nil", "terr != nil", "herr != nil", "conv != nil"
 
 func isErrCond(s string) bool {
 	if strings.Contains(s, "err == nil") {
+		return false
+	}
+	// best-effort cleanup inside an error path (e.g. deleting already-written hour files and only
+	// logging a delete error `derr`) is not part of the import's error policy
+	if strings.Contains(s, "derr") {
 		return false
 	}
 	for _, p := range errCond {
